@@ -64,9 +64,14 @@ func (o *CandidateNode) UnmarshalJSON(data []byte) error {
 				break
 			}
 
+			keyValue, isString := tok.(string)
+			if !isString {
+				return fmt.Errorf("invalid JSON: expected an object key but found %v", tok)
+			}
+
 			childKey := o.CreateChild()
 			childKey.IsMapKey = true
-			childKey.Value = tok.(string)
+			childKey.Value = keyValue
 			childKey.Kind = ScalarNode
 			childKey.Tag = "!!str"
 
